@@ -186,12 +186,10 @@ def _count_edge(st, node, oldcount):
     g["eAtI"] = z3.Store(g["eAtI"], node, oldcount, cei)
 
 
-def h_augsub1(gen, st, key, old):
-    _count_edge(st, key, old)
-
-
-def h_setsub1(gen, st, key):
-    _count_edge(st, key, z3.IntVal(0))
+def h_dstore_count(gen, st, key, present, old, new, drole):
+    """every store into the child-count dict while the graph is being walked (first visit `= 1`, later visits `+= 1`, or any equivalent spelling):
+    the edge that is being counted takes slot number `old count` (0 if the key was absent)"""
+    _count_edge(st, key, z3.If(present, old, z3.IntVal(0)))
 
 
 def h_extend1(gen, st, lst, src, base):
@@ -231,7 +229,8 @@ def h_append1(gen, st, lst, elem, at):
     g["Proc"] = z3.Store(g["Proc"], node, g["j"], True)
 
 
-def h_augsub2(gen, st, key, old):
+def h_dstore_release(gen, st, key, present, old, new, drole):
+    """a store into the child-count dict while the sorted nodes are being emitted: one counted edge into `key` is released"""
     g = st.g
     node, j = gen.var(st, "P2")[1], g["j"]
     sl = z3.Select(g["slot"], node, j)
@@ -251,8 +250,8 @@ def h_loopexit2(gen, st):
     st.pc.append(z3.Implies(z3.ForAll([n], z3.Implies(U(n), z3.And(U(w(n)), rank(w(n)) < rank(n), rank(n) >= rank(END)))), z3.ForAll([n], z3.Not(U(n)))))
 
 
-HOOKS = {"newlist#1": h_newlist1, "pop#1": h_pop1, "augsub#1": h_augsub1, "setsub#1": h_setsub1, "extend#1": h_extend1, "loopexit#1": h_loopexit1,
-         "newlist#2": h_newlist2, "yield#1": h_yield1, "append#1": h_append1, "augsub#2": h_augsub2, "loopexit#2": h_loopexit2}
+HOOKS = {"newlist#1": h_newlist1, "pop#1": h_pop1, "dstore@L1": h_dstore_count, "extend#1": h_extend1, "loopexit#1": h_loopexit1,
+         "newlist#2": h_newlist2, "yield#1": h_yield1, "append#1": h_append1, "dstore@L3": h_dstore_release, "loopexit#2": h_loopexit2}
 
 
 # ------------------------------------------------------------------------------------------------------------------ for-loop protocol
